@@ -127,6 +127,7 @@ func main() {
 	listOnly := flag.Bool("list", false, "list functions under contract and exit")
 	updateExpected := flag.Bool("update-expected", false, "rewrite expected_obligations.json for this property")
 	noWitness := flag.Bool("no-witness", false, "skip witness replays of known findings")
+	noBounded := flag.Bool("no-bounded", false, "skip the bounded stand-in checks (functions outside the verifier's reach)")
 	flag.Parse()
 	if t := os.Getenv("VERIF_TIER"); t != "" && !isFlagSet("tier") {
 		*tier = t
@@ -490,6 +491,45 @@ func main() {
 		fmt.Printf("VIOLATION property=%s replay=%s obligation=%s no-failing-input-found\n", *prop, path, o.Name)
 		exit = 1
 	}
+	// bounded stand-ins: functions whose specification no contract within reach can express (string classification
+	// through strings.HasPrefix, ...) are exercised on the real code over a stated finite domain. Labelled bounded in
+	// the evidence, never counted among the discharged obligations; a failure is a violation WITH a failing input.
+	var boundedNotes []map[string]interface{}
+	if *only == "" && !*noBounded {
+		files, _ := filepath.Glob(filepath.Join(*verifDir, "bounded", "*_test.go"))
+		sort.Strings(files)
+		for _, f := range files {
+			hdr := boundedHeader(f)
+			mine := false
+			for _, p := range strings.Fields(hdr["props"]) {
+				if p == *prop {
+					mine = true
+				}
+			}
+			if !mine {
+				continue
+			}
+			t0b := time.Now()
+			status, detail := runBounded(*repo, f, hdr["package"])
+			note := map[string]interface{}{"check": filepath.Base(f), "function": hdr["function"], "bound": hdr["bound"], "level": "bounded (not counted as proved)", "result": status, "detail": trunc(detail, 600), "seconds": time.Since(t0b).Seconds()}
+			boundedNotes = append(boundedNotes, note)
+			if status == "fail" {
+				name := "bounded." + strings.TrimSuffix(filepath.Base(f), "_test.go")
+				path := filepath.Join(replayDir, fmt.Sprintf("%s-%s.json", *prop, sanitize(name)))
+				rep := map[string]interface{}{"property": *prop, "obligation": name, "kind": "bounded", "function": hdr["function"], "bound": hdr["bound"],
+					"failing_input": detail, "how_to_replay": fmt.Sprintf("go test -overlay (inject %s into %s) -run TestVerifBounded", f, hdr["package"])}
+				data, _ := json.MarshalIndent(rep, "", " ")
+				os.WriteFile(path, data, 0o644)
+				fmt.Printf("VIOLATION property=%s replay=%s obligation=%s failing-input-replayed-on-the-real-code\n", *prop, path, name)
+				exit = 1
+			} else if status != "ok" {
+				fmt.Fprintf(os.Stderr, "BROKEN-CHECK bounded check %s did not run: %s\n", f, trunc(detail, 500))
+				if exit == 0 {
+					exit = 2
+				}
+			}
+		}
+	}
 	seenU := map[string]bool{}
 	for _, o := range undecided {
 		f := funcOf(o)
@@ -634,6 +674,7 @@ func main() {
 			"second_solver_recheck":     recheck,
 			"smoke_checks":              smoke,
 			"known_findings":            knownLines,
+			"bounded_stand_ins":         boundedNotes,
 			"generation_seconds":        tGen.Seconds(),
 			"contract_lines":            e.contracts.NLines,
 			"lean":                      leanNote,
@@ -890,4 +931,57 @@ func (e *Engine) checkConstInvAllocators(prop string) {
 			}
 		}
 	}
+}
+
+// boundedHeader reads the "// key: value" lines at the top of a bounded stand-in test.
+func boundedHeader(path string) map[string]string {
+	h := map[string]string{}
+	data, err := os.ReadFile(path)
+	if err != nil {
+		return h
+	}
+	for _, l := range strings.Split(string(data), "\n") {
+		if !strings.HasPrefix(l, "//") {
+			break
+		}
+		l = strings.TrimSpace(strings.TrimPrefix(l, "//"))
+		if i := strings.Index(l, ":"); i > 0 {
+			h[strings.TrimSpace(l[:i])] = strings.TrimSpace(l[i+1:])
+		}
+	}
+	return h
+}
+
+// runBounded injects a bounded stand-in test into the real package (go test -overlay) and runs it.
+func runBounded(repo, src, pkg string) (status, detail string) {
+	pkgDir := filepath.Join(repo, pkg)
+	work, err := os.MkdirTemp("", "vbnd")
+	if err != nil {
+		return "skipped", err.Error()
+	}
+	defer os.RemoveAll(work)
+	target := filepath.Join(pkgDir, "zz_verif_bounded_test.go")
+	data, _ := json.Marshal(map[string]interface{}{"Replace": map[string]string{target: src}})
+	ovPath := filepath.Join(work, "overlay.json")
+	os.WriteFile(ovPath, data, 0o644)
+	cmd := exec.Command("go", "test", "-overlay", ovPath, "-vet=off", "-count=1", "-timeout", "120s", "-run", "TestVerifBounded", "-v", ".")
+	cmd.Dir = pkgDir
+	cmd.Env = append(os.Environ(), "GOFLAGS=-mod=mod", "GOPROXY=off", "GOSUMDB=off", "GOTOOLCHAIN=local")
+	out, _ := cmd.CombinedOutput()
+	s := string(out)
+	var fails []string
+	for _, l := range strings.Split(s, "\n") {
+		if i := strings.Index(l, "BOUNDED-FAIL"); i >= 0 {
+			fails = append(fails, strings.TrimSpace(l[i:]))
+		}
+	}
+	if len(fails) > 0 {
+		return "fail", strings.Join(fails, "\n")
+	}
+	for _, l := range strings.Split(s, "\n") {
+		if i := strings.Index(l, "BOUNDED-OK"); i >= 0 {
+			return "ok", strings.TrimSpace(l[i:])
+		}
+	}
+	return "skipped", s
 }
